@@ -86,9 +86,37 @@ class _ReadOnly:
         return self._p
 
 
+class _Stalling(_ReadOnly):
+    """a non-blocking source: the read at offset `at` finds no data yet and answers None once (the io contract for "nothing
+    available right now"); asked again, it delivers"""
+    def __init__(self, b, at):
+        _ReadOnly.__init__(self, b)
+        self._at, self.stalled = at, False
+
+    def read(self, n=-1):
+        if self._p == self._at and not self.stalled:
+            self.stalled = True
+            return None
+        return _ReadOnly.read(self, n)
+
+
 def dec_event(args):
     import betterproto as bp
     b, pos, fn = args
+    if fn.startswith("load_stall"):
+        # C16 says nothing on how a stall is reported: treating it as the end of the input (an exception) is as good as waiting.
+        # What it does say is that a value that *is* returned is the decoding of the bytes consumed.  So: a rejection is judged
+        # as the decoding of the bytes delivered before the stall, an answer as the decoding of the whole input.
+        at = int(fn[len("load_stall"):])
+        s = _Stalling(b, at)
+        res, r = _exc(bp.load_varint, s)
+        if res != "ok" and s.stalled:
+            return {"op": "dec", "fn": "load", "b": list(b[:at]), "pos": 0, "res": res, "val": [], "next": -1, "exc": r, "stall": at, "whole": list(b)}
+        if res == "ok":
+            val, raw = r
+            nxt = s.tell() if raw == b[:s.tell()] else -2
+            return {"op": "dec", "fn": "load", "b": list(b), "pos": 0, "res": res, "val": av.mag(val) if val >= 0 else [], "next": nxt, "exc": "", "stall": at, "whole": list(b)}
+        return {"op": "dec", "fn": "load", "b": list(b), "pos": 0, "res": res, "val": [], "next": -1, "exc": r, "stall": at, "whole": list(b)}
     if fn == "decode":
         res, r = _exc(bp.decode_varint, b, pos)
         val, nxt = r if res == "ok" else (0, -1)
@@ -268,6 +296,9 @@ def run(ctx):
         decs.append((b, rnd.randint(0, max(0, ln - 1)) if rnd.random() < .3 else 0, rnd.choice(["decode", "load"])))
     # every load case again on a small-buffered reader and on a read()-only stream; long runs of varints back to back
     decs += [(b, pos, "load_buf") for b, pos, fn in decs if fn == "load"] + [(b, pos, "load_min") for b, pos, fn in decs if fn == "load" and len(b) % 3 == 0]
+    # ... and on a non-blocking source that has no data yet at one point inside (or right before) the varint
+    decs += [(b, 0, "load_stall%d" % at) for b, pos, fn in decs if fn == "load" and pos == 0 and 0 < len(b) <= 11 and (b[0] + len(b)) % 4 == 0
+             for at in range(len(b))]
     for n in ints[:: (7 if quick else 3)]:
         if -(1 << 63) <= n < (1 << 64):
             import betterproto as bp   # canonical encodings as decoder input: produced by the spec-checked encoder events above
@@ -301,6 +332,8 @@ def run(ctx):
 def redrive(ev):
     if ev["op"] == "enc":
         return enc_event(av.unint(ev["n"]))
+    if ev["op"] == "dec" and "stall" in ev:
+        return dec_event((bytes(ev["whole"]), 0, "load_stall%d" % ev["stall"]))
     if ev["op"] == "dec":
         return dec_event((bytes(ev["b"]), ev["pos"], ev["fn"]))
     return None
